@@ -226,3 +226,78 @@ func isSyncChan(v ssa.Value) bool {
 	name, _, _ := fieldName(fa)
 	return name == "syncCh"
 }
+
+// ---------------------------------------------------------------------------------------------
+// R14.9 — the idle report looks at every level a mutation marks
+
+func init() {
+	register(ruleDef{ID: "R14.9", Prop: "C14", Tier: "quick", Floor: 2,
+		Title: "the volume reports itself idle only when no level is marked: AnyScaleUpdating examines the levels up to and including MaxDownresLevel, the range downres.NewMutation marks",
+		Fn:    ruleIdleCoversTop})
+}
+
+func ruleIdleCoversTop(r *Run) {
+	w := r.W
+	// the marking side: NewMutation's loop is inclusive
+	nm := w.fn("datatype/common/downres", "NewMutation")
+	inclusive := func(f *ssa.Function, isBound func(v ssa.Value) bool) (found, incl bool, pos string) {
+		for _, b := range f.Blocks {
+			ifi, ok := b.Instrs[len(b.Instrs)-1].(*ssa.If)
+			if !ok || loopOf(b) == nil {
+				continue
+			}
+			bo, ok := ifi.Cond.(*ssa.BinOp)
+			if !ok {
+				continue
+			}
+			y := stripConv(bo.Y)
+			switch bo.Op {
+			case token.LEQ:
+				if isBound(y) {
+					return true, true, w.pos(bo.Pos())
+				}
+			case token.LSS:
+				if isBound(y) {
+					return true, false, w.pos(bo.Pos())
+				}
+				if add, ok := y.(*ssa.BinOp); ok && add.Op == token.ADD && isBound(stripConv(add.X)) {
+					if k, isK := constInt(add.Y); isK && k >= 1 {
+						return true, true, w.pos(bo.Pos())
+					}
+				}
+			}
+		}
+		return false, false, ""
+	}
+	if nm != nil {
+		found, incl, pos := inclusive(nm, func(v ssa.Value) bool {
+			c, ok := v.(*ssa.Call)
+			return ok && methodNameOf(c) == "GetMaxDownresLevel"
+		})
+		r.check(found && incl, "downres.NewMutation:marks-up-to-max-level", "levels 1..GetMaxDownresLevel() inclusive are marked", "NewMutation no longer marks the levels up to and including the maximum", pos)
+	} else {
+		r.violation("downres.NewMutation", "not found", "-")
+	}
+	n := 0
+	for _, f := range w.RepoFuncs {
+		if f.Name() != "AnyScaleUpdating" || len(f.Blocks) == 0 || f.Parent() != nil {
+			continue
+		}
+		n++
+		found, incl, pos := inclusive(f, func(v ssa.Value) bool {
+			u, ok := v.(*ssa.UnOp)
+			if !ok {
+				return false
+			}
+			fa, ok := u.X.(*ssa.FieldAddr)
+			if !ok {
+				return false
+			}
+			name, _, _ := fieldName(fa)
+			return name == "MaxDownresLevel"
+		})
+		r.check(found && incl, fname(f)+":examines-up-to-max-level", "the scan over the per-level update counts includes MaxDownresLevel",
+			"AnyScaleUpdating stops below MaxDownresLevel: while the last (top) level of a down-res pass is still being computed the volume reports itself idle", pos)
+	}
+	r.check(n >= 1, "repo:AnyScaleUpdating", fmt.Sprintf("%d implementations", n), "no AnyScaleUpdating found", "-")
+}
